@@ -244,15 +244,45 @@ def local_definitions(prog: list) -> list[tuple[list, str]]:
 
 
 def rename_local(prog: list, scope_stmt: dict, name: str, new: str) -> list:
-    """Consistently renames `name`, defined directly in the block `scope_stmt`, within that block (incl. nested scopes
-    that do not re-define it).  References through an exporting named scope (ns.name) are renamed as well."""
+    """Alpha-renames `name`, defined directly in the block `scope_stmt`: the definition and every reference inside
+    that block, except inside nested scopes that define the same name themselves (they shadow it).
+    References through an exporting named scope (ns.name), anywhere, are renamed as well."""
+    ren = {name: new}
+
+    def shadows(stmts: list) -> bool:
+        return name in _defined_names(stmts)
+
+    def inside(stmts: list) -> list:
+        out = []
+        for st in stmts:
+            k = st["k"]
+            if k in ("block", "scope"):
+                out.append(st if shadows(st["b"]) else dict(st, b=inside(st["b"])))
+            elif k == "for":
+                st2 = rename([dict(st, body=[])], ren)[0]          # bounds belong to the enclosing scope
+                st2["v"] = st["v"]
+                st2["body"] = st["body"] if (st["v"] == name or shadows(st["body"])) else inside(st["body"])
+                out.append(st2)
+            elif k == "if":
+                st2 = rename([dict(st, t=[], e=None)], ren)[0]
+                st2["t"] = inside(st["t"])
+                st2["e"] = inside(st["e"]) if st.get("e") is not None else None
+                out.append(st2)
+            elif k == "include":
+                out.append(dict(st, b=inside(st["b"])))
+            elif k == "call":
+                st2 = dict(st)
+                st2["as"] = [({"blk": inside(a["blk"])} if isinstance(a, dict) else _rename_expr(a, ren)) for a in st["as"]]
+                out.append(st2)
+            else:
+                out.append(rename([st], ren)[0])
+        return out
+
     def go(stmts: list) -> list:
         out = []
         for st in stmts:
             if st is scope_stmt:
-                ren = {name: new}
-                st2 = dict(st, b=rename(st["b"], ren))
-                out.append(st2)
+                out.append(dict(st, b=inside(st["b"])))
             else:
                 out.append(map_children(st, go))
         return out
